@@ -3,9 +3,17 @@ Props/C12b.lean — C12 completed with C10: the parser obligation `C12_parser_fu
 hypothesis in Props/C12.lean because the parser model belongs to C10) is discharged by
 `AV.Rx.GnfaGlue.parser_of_C10` (from `C10_compile_default`), which makes the English property
 unconditional.  Own module: importing the C10 files into Props/C12.lean makes `Rx.den` ambiguous.
+
+Round 2 (reviewer rev3) adds, in this order:
+* `C12_to_regex_explicit_alphabet` — the form with `NFA.from_regex(s, input_symbols=Σ_source)`;
+* `C12_one_validator_model`, `C12_to_regex_re` — `re._validate` has one model (C10's lexer and
+  `validate_tokens`); the stand-alone `simpleRxValid` agrees with it off `{`;
+* `C12_reserved_alphabet_fails`, `C12_to_regex_any_alphabet_fails` — the hypothesis "every input
+  symbol is `IsLit`" is necessary: the open finding `C12:alphabet-has-reserved-regex-character`.
 -/
 import AutomataVerif.Props.C12
 import AutomataVerif.Proofs.RxGnfaGlue
+import AutomataVerif.Proofs.GnfaReValidate
 
 namespace AV.Props.C12
 open AV AV.GNFA AV.GnfaSpec
@@ -40,5 +48,448 @@ theorem C12_to_regex_full {σ : Type} [DecidableEq σ] (natName : Nat → σ)
           ∃ s L, toRegex g ord = .ok (some s) ∧ AV.Rx.GnfaGlue.compile s = some L ∧
             ∀ w, w ∈ L ↔ n.accepts w = true) :=
   C12_to_regex_full_partial AV.Rx.GnfaGlue.compile C12_parser_full_holds natName hinj
+
+/-! ## The explicit-alphabet form: `NFA.from_regex(s, input_symbols=Σ_source)` -/
+
+/-- **C12_to_regex_explicit_alphabet** — what users (and the oracle of `harness/ops/C12.py`)
+actually call: for every valid DFA / NFA with a non-empty language over literal symbols and every
+rip order, the string `to_regex` returns is compiled by `NFA.from_regex(s, input_symbols=Σ)` —
+`Σ` the alphabet of the source — to a valid NFA whose acceptance verdict equals the source's on
+every word.  (Needs: the literals of the string are source symbols — `C12_dfa_alphabet` — and
+`Σ` has no reserved character, which is `hlit`; then `C10_compile`.) -/
+theorem C12_to_regex_explicit_alphabet {σ : Type} [DecidableEq σ] (natName : Nat → σ)
+    (hinj : Function.Injective natName) :
+    (∀ (d : DFA σ Char), d.validate = .ok () → (∀ kv ∈ d.trans, (akeys kv.2).Nodup) →
+      (∀ a ∈ d.syms, IsLit a) → (∃ w, d.accepts w = true) →
+      ∃ g, fromDFA simpleRxValid natName d = .ok g ∧
+        ∀ (ord : Nat → List σ → List σ), (∀ k l x, x ∈ ord k l ↔ x ∈ l) →
+          ∃ s N, toRegex g ord = .ok (some s) ∧ AV.Rx.fromRegex s (some d.syms) = .ok N ∧
+            N.validate = .ok () ∧ ∀ w, N.accepts w = d.accepts w) ∧
+    (∀ (n : NFA σ Char), n.validate = .ok () → (∀ kv ∈ n.trans, (akeys kv.2).Nodup) →
+      (∀ kv ∈ n.trans, ∀ e ∈ kv.2, e.2.Nodup) →
+      (∀ a ∈ n.syms, IsLit a) → (∃ w, n.accepts w = true) →
+      ∃ g, fromNFA simpleRxValid natName n = .ok g ∧
+        ∀ (ord : Nat → List σ → List σ), (∀ k l x, x ∈ ord k l ↔ x ∈ l) →
+          ∃ s N, toRegex g ord = .ok (some s) ∧ AV.Rx.fromRegex s (some n.syms) = .ok N ∧
+            N.validate = .ok () ∧ ∀ w, N.accepts w = n.accepts w) := by
+  have beq : ∀ {a b : Bool}, (a = true ↔ b = true) → a = b := by
+    intro a b h; cases a <;> cases b <;> simp_all
+  constructor
+  · intro d hv hkeys hlit hne
+    obtain ⟨g, hg, hall⟩ := C12_dfa_alphabet natName hinj d hv hkeys hlit hne
+    refine ⟨g, hg, fun ord hord => ?_⟩
+    obtain ⟨s, hs, _, hch, hm⟩ := hall ord hord
+    rcases hm with ⟨rfl, h1⟩ | ⟨e, hr, hd⟩
+    · obtain ⟨N, hN, hNv, hacc⟩ := AV.Rx.GnfaGlue.fromRegex_nil_explicit d.syms
+        (fun c hc => AV.Rx.GnfaGlue.isReserved_of_isLit (hlit c hc))
+      exact ⟨[], N, hs, hN, hNv, fun w => beq (by rw [hacc, h1])⟩
+    · obtain ⟨N, hN, hNv, hacc⟩ := AV.Rx.GnfaGlue.compile_explicit hr d.syms hlit hch
+      exact ⟨s, N, hs, hN, hNv, fun w => beq (by rw [hacc, hd])⟩
+  · intro n hv hkeys htgts hlit hne
+    obtain ⟨g, hg, hall⟩ := C12_nfa_alphabet natName hinj n hv hkeys htgts hlit hne
+    refine ⟨g, hg, fun ord hord => ?_⟩
+    obtain ⟨s, hs, _, hch, hm⟩ := hall ord hord
+    rcases hm with ⟨rfl, h1⟩ | ⟨e, hr, hd⟩
+    · obtain ⟨N, hN, hNv, hacc⟩ := AV.Rx.GnfaGlue.fromRegex_nil_explicit n.syms
+        (fun c hc => AV.Rx.GnfaGlue.isReserved_of_isLit (hlit c hc))
+      exact ⟨[], N, hs, hN, hNv, fun w => beq (by rw [hacc, h1])⟩
+    · obtain ⟨N, hN, hNv, hacc⟩ := AV.Rx.GnfaGlue.compile_explicit hr n.syms hlit hch
+      exact ⟨s, N, hs, hN, hNv, fun w => beq (by rw [hacc, hd])⟩
+
+/-- Non-vacuity: the model compiles the `(ab)*` of `exDFA` with the source alphabet. -/
+example : (AV.Rx.fromRegex ['(', 'a', 'b', ')', '*'] (some exDFA.syms)).toOption.map
+    (fun N => (N.accepts [], N.accepts ['a', 'b'], N.accepts ['a'], N.accepts ['a', 'b', 'a', 'b'])) =
+    some (exDFA.accepts [], exDFA.accepts ['a', 'b'], exDFA.accepts ['a'],
+      exDFA.accepts ['a', 'b', 'a', 'b']) := by decide
+
+/-! ## One model of `re._validate`
+
+`Props/C12.lean` instantiates the validator parameter of `GNFA.validate` / `from_dfa` / `from_nfa`
+with `simpleRxValid`, a stand-alone character-level model written before the C10/C11 model of
+`regex.validate` existed.  `reValidate` (Model/GNFARe.lean) is `re._validate` on top of C10's
+`lex` + `validateTokens`; it is what the driver `drv_gnfa` runs.  The two are the same function on
+every string without `{`, hence the constructors are the same functions on every alphabet
+without `{` (in particular on every literal alphabet), and the end-to-end theorems hold verbatim
+for the shared model. -/
+
+/-- **C12_one_validator_model** — `simpleRxValid` is `re._validate` of the C10/C11 lexer and
+validator model on every string without `{` (well-formed or not; same verdict, same escaping
+`LexerError`), and for an alphabet without `{` the two instances of `from_dfa` / `from_nfa` are
+the same function. -/
+theorem C12_one_validator_model :
+    (∀ s : Str, '{' ∉ s → simpleRxValid s =
+      match AV.Rx.validate s with
+      | .ok _ => .ok true
+      | .error (.lib .invalidRegexError) => .ok false
+      | .error e => .error e) ∧
+    (∀ {σ : Type} [DecidableEq σ] (natName : Nat → σ) (d : DFA σ Char), '{' ∉ d.syms →
+      fromDFA simpleRxValid natName d = fromDFA reValidate natName d) ∧
+    (∀ {σ : Type} [DecidableEq σ] (natName : Nat → σ) (n : NFA σ Char), '{' ∉ n.syms →
+      fromNFA simpleRxValid natName n = fromNFA reValidate natName n) :=
+  ⟨ReValidate.simpleRxValid_eq_of_validate, fun natName d h => ReValidate.fromDFA_congr natName d h,
+    fun natName n h => ReValidate.fromNFA_congr natName n h⟩
+
+theorem not_mem_brace_of_isLit {syms : List Char} (hlit : ∀ a ∈ syms, IsLit a) : '{' ∉ syms :=
+  fun h => (hlit '{' h).1 (by decide)
+
+theorem reValidate_of_chars {syms : List Char} (hlit : ∀ a ∈ syms, IsLit a) {s : Str}
+    (hch : ∀ c ∈ s, c ∈ syms ++ ['*', '|', '(', ')', '?']) (hv : simpleRxValid s = .ok true) :
+    reValidate s = .ok true := by
+  rw [← ReValidate.simpleRxValid_eq_reValidate s ?_]
+  · exact hv
+  · intro h
+    rcases List.mem_append.mp (hch '{' h) with h' | h'
+    · exact not_mem_brace_of_isLit hlit h'
+    · revert h'; decide
+
+/-- **C12_to_regex_re** — the English property, in both readings of "the parser accepts", for
+the single validator model: for every valid DFA / NFA with a non-empty language over literal
+symbols, `from_dfa` / `from_nfa` (validating with `re._validate` = C10's lexer and
+`validate_tokens`) succeed, and for every rip order `to_regex` returns a string `s` such that
+`re._validate(s)` is `True`, `NFA.from_regex(s)` compiles to exactly the source language, and
+`NFA.from_regex(s, input_symbols=Σ_source)` returns a valid NFA with the source's verdict on every
+word. -/
+theorem C12_to_regex_re {σ : Type} [DecidableEq σ] (natName : Nat → σ)
+    (hinj : Function.Injective natName) :
+    (∀ (d : DFA σ Char), d.validate = .ok () → (∀ kv ∈ d.trans, (akeys kv.2).Nodup) →
+      (∀ a ∈ d.syms, IsLit a) → (∃ w, d.accepts w = true) →
+      ∃ g, fromDFA reValidate natName d = .ok g ∧
+        ∀ (ord : Nat → List σ → List σ), (∀ k l x, x ∈ ord k l ↔ x ∈ l) →
+          ∃ s L N, toRegex g ord = .ok (some s) ∧ reValidate s = .ok true ∧
+            AV.Rx.GnfaGlue.compile s = some L ∧ (∀ w, w ∈ L ↔ d.accepts w = true) ∧
+            AV.Rx.fromRegex s (some d.syms) = .ok N ∧ N.validate = .ok () ∧
+            ∀ w, N.accepts w = d.accepts w) ∧
+    (∀ (n : NFA σ Char), n.validate = .ok () → (∀ kv ∈ n.trans, (akeys kv.2).Nodup) →
+      (∀ kv ∈ n.trans, ∀ e ∈ kv.2, e.2.Nodup) →
+      (∀ a ∈ n.syms, IsLit a) → (∃ w, n.accepts w = true) →
+      ∃ g, fromNFA reValidate natName n = .ok g ∧
+        ∀ (ord : Nat → List σ → List σ), (∀ k l x, x ∈ ord k l ↔ x ∈ l) →
+          ∃ s L N, toRegex g ord = .ok (some s) ∧ reValidate s = .ok true ∧
+            AV.Rx.GnfaGlue.compile s = some L ∧ (∀ w, w ∈ L ↔ n.accepts w = true) ∧
+            AV.Rx.fromRegex s (some n.syms) = .ok N ∧ N.validate = .ok () ∧
+            ∀ w, N.accepts w = n.accepts w) := by
+  constructor
+  · intro d hv hkeys hlit hne
+    obtain ⟨g, hg, hall⟩ := C12_dfa_alphabet natName hinj d hv hkeys hlit hne
+    obtain ⟨g1, hg1, hall1⟩ := (C12_to_regex_full natName hinj).1 d hv hkeys hlit hne
+    obtain ⟨g2, hg2, hall2⟩ := (C12_to_regex_explicit_alphabet natName hinj).1 d hv hkeys hlit hne
+    rw [hg] at hg1 hg2
+    cases hg1
+    cases hg2
+    rw [ReValidate.fromDFA_congr natName d (not_mem_brace_of_isLit hlit)] at hg
+    refine ⟨g, hg, fun ord hord => ?_⟩
+    obtain ⟨s, hs, hval, hch, _⟩ := hall ord hord
+    obtain ⟨s1, L, hs1, hL, hLw⟩ := hall1 ord hord
+    obtain ⟨s2, N, hs2, hN, hNv, hNw⟩ := hall2 ord hord
+    rw [hs] at hs1 hs2
+    cases hs1
+    cases hs2
+    exact ⟨s, L, N, hs, reValidate_of_chars hlit hch hval, hL, hLw, hN, hNv, hNw⟩
+  · intro n hv hkeys htgts hlit hne
+    obtain ⟨g, hg, hall⟩ := C12_nfa_alphabet natName hinj n hv hkeys htgts hlit hne
+    obtain ⟨g1, hg1, hall1⟩ := (C12_to_regex_full natName hinj).2 n hv hkeys htgts hlit hne
+    obtain ⟨g2, hg2, hall2⟩ :=
+      (C12_to_regex_explicit_alphabet natName hinj).2 n hv hkeys htgts hlit hne
+    rw [hg] at hg1 hg2
+    cases hg1
+    cases hg2
+    rw [ReValidate.fromNFA_congr natName n (not_mem_brace_of_isLit hlit)] at hg
+    refine ⟨g, hg, fun ord hord => ?_⟩
+    obtain ⟨s, hs, hval, hch, _⟩ := hall ord hord
+    obtain ⟨s1, L, hs1, hL, hLw⟩ := hall1 ord hord
+    obtain ⟨s2, N, hs2, hN, hNv, hNw⟩ := hall2 ord hord
+    rw [hs] at hs1 hs2
+    cases hs1
+    cases hs2
+    exact ⟨s, L, N, hs, reValidate_of_chars hlit hch hval, hL, hLw, hN, hNv, hNw⟩
+
+/-- Non-vacuity / the boundary of the agreement: on `{` the stand-alone model is wrong (it reads
+`{` as a literal) while the shared model runs the quantifier rule, as the code does:
+`re._validate("a{1,2}")` is `True` for both, but `"{|,|}"` — which `from_dfa` assembles for a DFA
+with the symbols `{ , }` on one edge — makes the real `int("|")` raise `ValueError`. -/
+example : simpleRxValid "{|,|}".toList = .ok true ∧
+    reValidate "{|,|}".toList = .error (.py .valueError) := by decide
+
+example : reValidate "(ab)*".toList = .ok true ∧ reValidate "(ab".toList = .ok false ∧
+    reValidate "a b".toList = .ok true ∧ reValidate ['a', '\n'] = .error (.lib .lexerError) := by
+  decide
+
+/-! ## The literal-alphabet hypothesis is necessary (open finding
+`C12:alphabet-has-reserved-regex-character`)
+
+`hlit : ∀ a ∈ syms, IsLit a` excludes source alphabets that contain a reserved character of the
+regex syntax or a white-space character.  Such automata are valid DFAs / NFAs with a non-empty
+language — inside the domain of the English property — and on them the code *violates* the
+property: `to_regex` embeds the symbols verbatim (the output syntax has no escaping), so `.` is
+read back as the wildcard (another language), a blank is skipped, `{` `}` do not parse, and for
+`* | ( ) ? & + ^` and other white space already `from_dfa` / `from_nfa` raise.  The theorem below
+proves the failure on the model for the smallest wrong-language case. -/
+
+/-- The property for DFAs *without* the literal-alphabet hypothesis. -/
+def C12_to_regex_any_alphabet (σ : Type) [DecidableEq σ] (natName : Nat → σ) : Prop :=
+  ∀ (d : DFA σ Char), d.validate = .ok () → (∀ kv ∈ d.trans, (akeys kv.2).Nodup) →
+    (∃ w, d.accepts w = true) →
+    ∃ g, fromDFA simpleRxValid natName d = .ok g ∧
+      ∀ (ord : Nat → List σ → List σ), (∀ k l x, x ∈ ord k l ↔ x ∈ l) →
+        ∃ s L, toRegex g ord = .ok (some s) ∧ AV.Rx.GnfaGlue.compile s = some L ∧
+          ∀ w, w ∈ L ↔ d.accepts w = true
+
+/-- `0 -'.'→ 1 -'a'→ 1`, final state 1, over `{'.', 'a'}`: the language `{"."}·{"a"}*`. -/
+def exDotDFA : AV.DFA Nat Char :=
+  { states := [0, 1], syms := ['.', 'a'], trans := [(0, [('.', 1)]), (1, [('a', 1)])],
+    init := 0, finals := [1], allowPartial := true }
+
+/-- What `from_dfa` builds from it (new initial state 2, new final state 3). -/
+def exDotG : GNFA Nat Str :=
+  { states := [0, 1, 2, 3], syms := ['.', 'a'],
+    trans := [(0, [(1, some ['.']), (0, none), (3, none)]),
+              (1, [(1, some ['a']), (3, some []), (0, none)]),
+              (2, [(0, some []), (1, none), (3, none)])],
+    init := 2, final := 3 }
+
+theorem exDotG_shape : Shape [0, 1, 2, 3] 2 3 exDotG.trans := by
+  refine ⟨by decide, by decide, by decide, by decide, ?_, ?_⟩
+  · intro p
+    rcases p with _ | _ | _ | _ | p <;> simp [exDotG, alookup]
+  · intro p r
+    rcases p with _ | _ | _ | _ | p <;> rcases r with _ | _ | _ | _ | r <;>
+      simp [exDotG, alookup, get2]
+
+/-- Whatever the rip order, `to_regex` returns `.a*` for it. -/
+theorem exDotG_toRegex (ord : Nat → List Nat → List Nat) (hord : ∀ k l x, x ∈ ord k l ↔ x ∈ l) :
+    toRegex exDotG ord = .ok (some ['.', 'a', '*']) := by
+  have hS := exDotG_shape
+  obtain ⟨q, hfind, hqS, hqi, hqf⟩ := findMin_spec hS (by decide) (ord 0) (hord 0)
+  have hq : q = 0 ∨ q = 1 := by
+    simp only [List.mem_cons, List.not_mem_nil, or_false] at hqS
+    omega
+  have hunf : toRegex exDotG ord =
+      toRegexLoop ripLabel 2 3 ord 2 0 [0, 1, 2, 3] exDotG.trans [] >>= fun r => .ok r.2 := rfl
+  rw [hunf]
+  rcases hq with rfl | rfl
+  · obtain ⟨tr', hstep, hS', -⟩ := ripStep_spec ripLabel hS hqS hqi hqf
+    have hstep0 : ripStep ripLabel 2 3 [0, 1, 2, 3] exDotG.trans 0 =
+        .ok ([1, 2, 3], [(1, [(1, some ['a']), (3, some [])]), (2, [(1, some ['.']), (3, none)])]) := by
+      rfl
+    rw [hstep0] at hstep
+    obtain ⟨-, rfl⟩ := Prod.mk.inj (Except.ok.inj hstep)
+    have hf : (List.filter (fun x => decide (x ≠ 0)) [0, 1, 2, 3]) = [1, 2, 3] := by decide
+    rw [hf] at hS'
+    obtain ⟨q, hfind', hqS', hqi', hqf'⟩ := findMin_spec hS' (by decide) (ord 1) (hord 1)
+    have hq : q = 1 := by
+      simp only [List.mem_cons, List.not_mem_nil, or_false] at hqS'
+      omega
+    subst hq
+    simp only [toRegexLoop, bind, Except.bind, hfind, hstep0, hfind']
+    rfl
+  · obtain ⟨tr', hstep, hS', -⟩ := ripStep_spec ripLabel hS hqS hqi hqf
+    have hstep0 : ripStep ripLabel 2 3 [0, 1, 2, 3] exDotG.trans 1 =
+        .ok ([0, 2, 3], [(0, [(0, none), (3, some ['.', 'a', '*'])]), (2, [(0, some []), (3, none)])]) := by
+      rfl
+    rw [hstep0] at hstep
+    obtain ⟨-, rfl⟩ := Prod.mk.inj (Except.ok.inj hstep)
+    have hf : (List.filter (fun x => decide (x ≠ 1)) [0, 1, 2, 3]) = [0, 2, 3] := by decide
+    rw [hf] at hS'
+    obtain ⟨q, hfind', hqS', hqi', hqf'⟩ := findMin_spec hS' (by decide) (ord 1) (hord 1)
+    have hq : q = 0 := by
+      simp only [List.mem_cons, List.not_mem_nil, or_false] at hqS'
+      omega
+    subst hq
+    simp only [toRegexLoop, bind, Except.bind, hfind, hstep0, hfind']
+    rfl
+
+/-- The parser model compiles `.a*` (default alphabet `{a}`: the `.` is the wildcard) to an NFA
+that accepts `a`. -/
+theorem exDot_compile : ∃ N, AV.Rx.fromRegex ['.', 'a', '*'] none = .ok N ∧
+    N.accepts ['a'] = true := by
+  have h : (AV.Rx.fromRegex ['.', 'a', '*'] none).toOption.map (fun N => N.accepts ['a']) =
+      some true := by decide
+  cases hN : AV.Rx.fromRegex ['.', 'a', '*'] none with
+  | error e => rw [hN] at h; cases h
+  | ok N =>
+    rw [hN] at h
+    exact ⟨N, rfl, by simpa [Except.toOption] using h⟩
+
+/-- **C12_reserved_alphabet_fails** — the witness: `exDotDFA` is a valid DFA with a non-empty
+language (it accepts `.`) whose alphabet contains the reserved character `.`; `from_dfa`
+succeeds, and for EVERY rip order `to_regex` returns the string `.a*`, which the library's
+parser model compiles (default alphabet) to a language **different** from the source's — the
+compiled NFA accepts `a`, the DFA does not — and which `NFA.from_regex(s, input_symbols=Σ)` with
+the source alphabet refuses with `InvalidSymbolError`. -/
+theorem C12_reserved_alphabet_fails :
+    exDotDFA.validate = .ok () ∧ (∀ kv ∈ exDotDFA.trans, (akeys kv.2).Nodup) ∧
+    (∃ w, exDotDFA.accepts w = true) ∧ ¬ (∀ a ∈ exDotDFA.syms, IsLit a) ∧
+    ∃ g, fromDFA simpleRxValid id exDotDFA = .ok g ∧
+      ∀ (ord : Nat → List Nat → List Nat), (∀ k l x, x ∈ ord k l ↔ x ∈ l) →
+        ∃ s L, toRegex g ord = .ok (some s) ∧ AV.Rx.GnfaGlue.compile s = some L ∧
+          ¬ (∀ w, w ∈ L ↔ exDotDFA.accepts w = true) ∧
+          AV.Rx.fromRegex s (some exDotDFA.syms) = .error (.lib .invalidSymbolError) := by
+  refine ⟨by decide, by decide, ⟨['.'], by decide⟩, by decide, exDotG, by decide, ?_⟩
+  intro ord hord
+  obtain ⟨N, hN, hacc⟩ := exDot_compile
+  refine ⟨['.', 'a', '*'], {w | N.accepts w = true}, exDotG_toRegex ord hord, ?_, ?_, rfl⟩
+  · unfold AV.Rx.GnfaGlue.compile
+    rw [hN]
+  · intro h
+    have h1 : exDotDFA.accepts ['a'] = true := (h ['a']).mp hacc
+    have h2 : exDotDFA.accepts ['a'] = false := by decide
+    rw [h2] at h1
+    cases h1
+
+/-- The unrestricted claim fails: the hypothesis `hlit` of `C12_dfa` / `C12_to_regex_full`
+cannot be dropped (`IsLit` is exactly the boundary the output syntax imposes: a character that
+is not `IsLit` is reserved or white space, and is then not read back as itself). -/
+theorem C12_to_regex_any_alphabet_fails : ¬ C12_to_regex_any_alphabet Nat id := by
+  intro h
+  obtain ⟨hv, hk, hne, -, g, hg, hall⟩ := C12_reserved_alphabet_fails
+  obtain ⟨g', hg', hall'⟩ := h exDotDFA hv hk hne
+  rw [hg] at hg'
+  cases hg'
+  obtain ⟨s, L, hs, hc, hneq, -⟩ := hall (fun _ l => l) (fun _ _ _ => Iff.rfl)
+  obtain ⟨s', L', hs', hc', heq⟩ := hall' (fun _ l => l) (fun _ _ _ => Iff.rfl)
+  rw [hs] at hs'
+  cases hs'
+  rw [hc] at hc'
+  cases hc'
+  exact hneq heq
+
+/-! ## `IsLit` is exactly the boundary
+
+For every character `c` the one-state DFA over `{c}` accepting `c*` is a valid source with a
+non-empty language.  The end-to-end property holds for it iff `c` is `IsLit`: for the thirteen
+reserved characters `c*` does not parse / is refused (`InvalidRegexError`, `InvalidSymbolError`) or,
+for `.`, compiles to `{ε}`; for any other white-space character `from_dfa` raises `LexerError`. -/
+
+/-- The end-to-end property (inferred alphabet) for one source DFA with `Nat` states. -/
+def C12_holds_for (d : DFA Nat Char) : Prop :=
+  ∃ g, fromDFA simpleRxValid id d = .ok g ∧
+    ∀ (ord : Nat → List Nat → List Nat), (∀ k l x, x ∈ ord k l ↔ x ∈ l) →
+      ∃ s L, toRegex g ord = .ok (some s) ∧ AV.Rx.GnfaGlue.compile s = some L ∧
+        ∀ w, w ∈ L ↔ d.accepts w = true
+
+/-- The one-state DFA over `{c}` with a `c`-loop on its (initial, final) state: language `c*`. -/
+def loopDFA (c : Char) : AV.DFA Nat Char :=
+  { states := [0], syms := [c], trans := [(0, [(c, 0)])], init := 0, finals := [0],
+    allowPartial := false }
+
+/-- What `from_dfa` builds from it, if the validating constructor lets it through. -/
+def loopG (c : Char) : GNFA Nat Str :=
+  { states := [0, 1, 2], syms := [c],
+    trans := [(0, [(0, some [c]), (2, some [])]), (1, [(0, some []), (2, none)])],
+    init := 1, final := 2 }
+
+theorem loop_fromDFA (c : Char) : fromDFA simpleRxValid id (loopDFA c) =
+    match (loopG c).validateStr simpleRxValid with
+    | .ok _ => .ok (loopG c)
+    | .error e => .error e := rfl
+
+theorem loop_toRegex (c : Char) : toRegex (loopG c) (fun _ l => l) = .ok (some [c, '*']) := rfl
+
+theorem loop_g {c : Char} {g : GNFA Nat Str} (hg : fromDFA simpleRxValid id (loopDFA c) = .ok g) :
+    g = loopG c := by
+  rw [loop_fromDFA] at hg
+  split at hg
+  · exact (Except.ok.inj hg).symm
+  · cases hg
+
+theorem refute_ctor {c : Char} {e : Exn}
+    (h : (loopG c).validateStr simpleRxValid = .error e) : ¬ C12_holds_for (loopDFA c) := by
+  rintro ⟨g, hg, -⟩
+  rw [loop_fromDFA, h] at hg
+  cases hg
+
+theorem refute_parse {c : Char} {e : Exn} (h : AV.Rx.fromRegex [c, '*'] none = .error e) :
+    ¬ C12_holds_for (loopDFA c) := by
+  rintro ⟨g, hg, hall⟩
+  obtain ⟨s, L, hs, hc, -⟩ := hall (fun _ l => l) (fun _ _ _ => Iff.rfl)
+  rw [loop_g hg, loop_toRegex] at hs
+  cases hs
+  unfold AV.Rx.GnfaGlue.compile at hc
+  rw [h] at hc
+  cases hc
+
+theorem refute_word {c : Char}
+    (h : (AV.Rx.fromRegex [c, '*'] none).toOption.map (fun N => N.accepts [c]) = some false) :
+    ¬ C12_holds_for (loopDFA c) := by
+  rintro ⟨g, hg, hall⟩
+  obtain ⟨s, L, hs, hc, hL⟩ := hall (fun _ l => l) (fun _ _ _ => Iff.rfl)
+  rw [loop_g hg, loop_toRegex] at hs
+  cases hs
+  unfold AV.Rx.GnfaGlue.compile at hc
+  cases hN : AV.Rx.fromRegex [c, '*'] none with
+  | error e => rw [hN] at hc; cases hc
+  | ok N =>
+    rw [hN] at hc h
+    have hL' : L = {w | N.accepts w = true} := (Option.some.inj hc).symm
+    subst hL'
+    have hacc : (loopDFA c).accepts [c] = true := by
+      simp [loopDFA, DFA.accepts, DFA.run, DFA.step?, DFA.row, DFA.row?, DFA.isFinal, alookup]
+    have : N.accepts [c] = true := (hL [c]).mpr hacc
+    simp [Except.toOption, this] at h
+
+
+theorem loop_space {c : Char} (hsp : pyIsSpace c = true) (h1 : c ≠ ' ') (h2 : c ≠ '\t') :
+    (loopG c).validateStr simpleRxValid = .error (.lib .lexerError) := by
+  have n1 : c ≠ '(' := by rintro rfl; revert hsp; decide
+  have n2 : c ≠ ')' := by rintro rfl; revert hsp; decide
+  have n3 : c ≠ '|' := by rintro rfl; revert hsp; decide
+  have n4 : c ≠ '&' := by rintro rfl; revert hsp; decide
+  have n5 : c ≠ '^' := by rintro rfl; revert hsp; decide
+  have n6 : c ≠ '*' := by rintro rfl; revert hsp; decide
+  have n7 : c ≠ '+' := by rintro rfl; revert hsp; decide
+  have n8 : c ≠ '?' := by rintro rfl; revert hsp; decide
+  have hlex : simpleRxValid [c] = .error (.lib .lexerError) := by
+    simp [simpleRxValid, lexSimple, n1, n2, n3, n4, n5, n6, n7, n8, h1, h2, hsp]
+  have hchk : strLabelCheck simpleRxValid [c] [c] = .error (.lib .lexerError) := by
+    simp [strLabelCheck, hlex]
+  simp [GNFA.validateStr, GNFA.validate, loopG, firstErr, GNFA.validateLabels, avals, hchk,
+    Res.andThen, guardE, ahas, alookup]
+
+
+theorem loop_valid (c : Char) : (loopDFA c).validate = .ok () := by
+  rw [DFA.validate_eq_ok]
+  refine ⟨?_, ?_, ?_, ?_, ?_, ?_⟩ <;> simp [loopDFA, akeys, avals]
+
+/-- **C12_isLit_boundary** — `IsLit` is exactly the boundary of the property: for the one-state
+DFA over `{c}` that accepts `c*` (valid, non-empty language, for EVERY character `c`), the
+end-to-end property — `from_dfa` succeeds and `to_regex`'s string compiles to exactly the source
+language — holds **iff** `c` is `IsLit` (not reserved, not white space). -/
+theorem C12_isLit_boundary (c : Char) : C12_holds_for (loopDFA c) ↔ IsLit c := by
+  constructor
+  · intro h
+    by_contra hl
+    have hcase : c ∈ AV.Gen.Regex.reservedCharacters ∨
+        (c ∉ AV.Gen.Regex.reservedCharacters ∧ pyIsSpace c = true) := by
+      by_cases hr : c ∈ AV.Gen.Regex.reservedCharacters
+      · exact Or.inl hr
+      · right
+        refine ⟨hr, ?_⟩
+        cases hsp : pyIsSpace c with
+        | true => rfl
+        | false => exact absurd ⟨hr, hsp⟩ hl
+    rcases hcase with hr | ⟨hr, hsp⟩
+    · simp only [AV.Gen.Regex.reservedCharacters, List.mem_cons, List.not_mem_nil, or_false] at hr
+      rcases hr with rfl | rfl | rfl | rfl | rfl | rfl | rfl | rfl | rfl | rfl | rfl | rfl | rfl
+      · exact refute_parse (e := .lib .invalidRegexError) rfl h
+      · exact refute_parse (e := .lib .invalidRegexError) rfl h
+      · exact refute_parse (e := .lib .invalidRegexError) rfl h
+      · exact refute_parse (e := .lib .invalidRegexError) rfl h
+      · exact refute_parse (e := .lib .invalidRegexError) rfl h
+      · exact refute_parse (e := .lib .invalidRegexError) rfl h
+      · exact refute_parse (e := .lib .invalidRegexError) rfl h
+      · exact refute_parse (e := .lib .invalidRegexError) rfl h
+      · exact refute_parse (e := .lib .invalidRegexError) rfl h
+      · exact refute_word (by decide) h
+      · exact refute_parse (e := .lib .invalidRegexError) rfl h
+      · exact refute_parse (e := .lib .invalidSymbolError) rfl h
+      · exact refute_parse (e := .lib .invalidSymbolError) rfl h
+    · have h1 : c ≠ ' ' := by
+        rintro rfl; exact hr (by decide)
+      have h2 : c ≠ '\t' := by
+        rintro rfl; exact hr (by decide)
+      exact refute_ctor (loop_space hsp h1 h2) h
+  · intro hl
+    exact (C12_to_regex_full id (fun _ _ h => h)).1 (loopDFA c) (loop_valid c)
+      (by simp [loopDFA, akeys]) (by simpa [loopDFA] using hl) ⟨[], rfl⟩
 
 end AV.Props.C12
